@@ -107,6 +107,11 @@ def write_replay(pid, v):
 
 
 def main(argv=None):
+    for stream in (sys.stdout, sys.stderr):
+        try:
+            stream.reconfigure(errors="backslashreplace")   # messages may quote strings that are not valid UTF-8
+        except Exception:  # noqa: BLE001
+            pass
     global _POOL
     ap = argparse.ArgumentParser()
     ap.add_argument("pid")
